@@ -17,16 +17,16 @@ LEVEL_TEXT = ('each point performs a real put -> history -> restore round trip; 
               'snapshot(after restore) incl. modes and mtimes, exactly that pair gone from the trash and nothing else changed')
 LEVEL_NOTE = 'trusted: CPython/shutil, tmpfs, shim mount rules; names limited to the alphabet (non-UTF-8 names are C16 territory)'
 RULE = ('names (24, incl. spaces, newlines, %, leading -, non-ASCII, 255 bytes) x kinds (6) x layout (home, .Trash/uid, .Trash-uid, '
-        '--trash-dir, .Trash-uid next to insecure .Trash/uid directories on two volumes, .Trash-uid being a symbolic link, home trash with a 1.4 KB original directory) x sort (date,path,none) x scope (cwd=dir, cwd=ancestor, cwd=/, explicit path) x history (6); quick tier '
+        '--trash-dir, .Trash-uid next to insecure .Trash/uid directories on two volumes, .Trash-uid being a symbolic link, home trash with a 1.4 KB original directory, another volume whose trash directories are blocked + home fallback = a copy across file systems both ways) x sort (date,path,none) x scope (cwd=dir, cwd=ancestor, cwd=/, explicit absolute path, path relative to the working directory) x history (6); quick tier '
         'restricts names to 12 (incl. trailing blank / tab / newline inside / %XX / leading dash / non-ASCII / 255 bytes), scopes to 2 and histories to 3; non-trivial = listing printed and index chosen; distinct = '
         'outcome class x all dimensions')
 NAMES = ['a.trashinfo.bak', 'a', 'a b', ' lead', 'trail ', 'a\nb', 'a\rb', 'tab\t', '%41', 'a%', '%', '-x', '--', 'é', '日本', '.hidden',
-         'a.trashinfo', '*?[', '=', '#', '+', '&;', '"\'', '\\', 'L' * 255, '..notes', '...']
-QNAMES = ['a', 'trail ', 'a\nb', '%41', '-x', '日本', 'tab\t', 'L' * 255, 'a.trashinfo.bak', '.hidden', '..notes', '...']
-LAYOUTS = ['home', 'top-sticky', 'top-alt', 'trash-dir', 'top-alt-insecure', 'top-alt-link', 'home-deep']
+         'a.trashinfo', '*?[', '=', '#', '+', '&;', '"\'', '\\', 'L' * 255, '..notes', '...', '~', '~u']
+QNAMES = ['a', 'trail ', 'a\nb', '%41', '-x', '日本', 'tab\t', 'L' * 255, 'a.trashinfo.bak', '.hidden', '..notes', '...', '~']
+LAYOUTS = ['home', 'top-sticky', 'top-alt', 'trash-dir', 'top-alt-insecure', 'top-alt-link', 'home-deep', 'vol-fallback']
 DEEP = '/'.join(('%dé' % i) + 'é' * 99 for i in range(7))          # seven levels of 100 two-byte characters: the Path= line is longer than 4096 bytes
 SORTS = ['date', 'path', 'none']
-SCOPES = ['dir', 'ancestor', 'root', 'path-arg']
+SCOPES = ['dir', 'ancestor', 'root', 'path-arg', 'rel-path-arg']
 HISTS = ['none', 'same-second-twin', 'older-same-name', 'unrelated-after', 'parent-removed', 'other-restored-first', 'empty-1-between']
 
 
@@ -46,11 +46,18 @@ def cases(tier):
                     for k in scen.KINDS:
                         for n in (QNAMES if q else NAMES):
                             out.append({'name': n, 'kind': k, 'lay': lay, 'sort': so, 'scope': sc, 'hist': h})
+    if q:
+        # the PATH argument given relative to the working directory (quick: without history)
+        for so in SORTS:
+            for lay in LAYOUTS:
+                for k in scen.KINDS:
+                    for n in QNAMES:
+                        out.append({'name': n, 'kind': k, 'lay': lay, 'sort': so, 'scope': 'rel-path-arg', 'hist': 'none'})
     return out
 
 
 def run_case(c):
-    vol = c['lay'].startswith('top-')
+    vol = c['lay'].startswith('top-') or c['lay'] == 'vol-fallback'
     B = '/mnt/v1/data/w' if vol else '/home/u/data/w'
     if c['lay'] == 'home-deep':
         B = '/home/u/data/' + DEEP + '/w'
@@ -70,35 +77,41 @@ def run_case(c):
     if c['lay'] == 'top-sticky':
         W.dir('/mnt/v1/.Trash', mode=0o1777)
     tdopt = ['--trash-dir', '/home/u/mytrash'] if c['lay'] == 'trash-dir' else []
+    putopt, putenv = [], None
+    if c['lay'] == 'vol-fallback':
+        # both trash directories of the volume are unusable and the home fallback is enabled: the put is a copy across file systems, and so is the restore
+        W.file('/mnt/v1/.Trash', 'blocked').file('/mnt/v1/.Trash-0', 'blocked')
+        putopt, putenv = ['--home-fallback'], dict(W.env, TRASH_ENABLE_HOME_FALLBACK='1')
     T_OLD, T_US, T_NEW = '2024-01-01T10:00:00', '2024-01-05T10:00:00', '2024-01-09T10:00:00'
     with cell.Sandbox(W.spec()) as sb:
         orig = sb.snapshot()
         h = c['hist']
         if h in ('older-same-name', 'same-second-twin'):
-            r = sb.run(['trash-put'] + tdopt + ['--', n], cwd=B, now=T_OLD if h == 'older-same-name' else T_US)
+            r = sb.run(['trash-put'] + putopt + tdopt + ['--', n], cwd=B, now=T_OLD if h == 'older-same-name' else T_US, env=putenv)
             world.build(sb.root, [x for x in W.spec()['nodes'] if x[1] == E or x[1].startswith(E + '/')])
             # re-created original has to be byte-identical to orig for the oracle: rebuild resets mtimes
             orig = sb.snapshot()
-        r = sb.run(['trash-put'] + tdopt + ['--', n], cwd=B, now=T_US)
+        r = sb.run(['trash-put'] + putopt + tdopt + ['--', n], cwd=B, now=T_US, env=putenv)
         if r.exit != 0:
             return {'verdict': 'dontcare', 'klass': 'put-failed', 'detail': r.err[-300:]}
         if h == 'unrelated-after':
-            sb.run(['trash-put'] + tdopt + ['other'], cwd=B, now=T_NEW)
+            sb.run(['trash-put'] + putopt + tdopt + ['other'], cwd=B, now=T_NEW, env=putenv)
         elif h == 'other-restored-first':
-            sb.run(['trash-put'] + tdopt + ['other'], cwd=B, now=T_OLD)
+            sb.run(['trash-put'] + putopt + tdopt + ['other'], cwd=B, now=T_OLD, env=putenv)
             sb.run(['trash-restore'] + tdopt + [B + '/other'], cwd='/', stdin='0\n')
         elif h == 'empty-1-between':
-            sb.run(['trash-put'] + tdopt + ['other'], cwd=B, now=T_OLD)
+            sb.run(['trash-put'] + putopt + tdopt + ['other'], cwd=B, now=T_OLD, env=putenv)
             sb.run(['trash-empty'] + tdopt + ['2'], cwd='/', env=dict(W.env, TRASH_DATE='2024-01-06T10:00:00'))
         elif h == 'parent-removed':
             import shutil
             shutil.rmtree(sb.root + '/'.join(B.split('/')[:-1]))      # removes .../data (with w inside)
         before = sb.snapshot()
         scope = c['scope']
-        cwd = {'dir': B, 'ancestor': B.rsplit('/', 2)[0], 'root': '/', 'path-arg': '/outside'}[scope]
+        cwd = {'dir': B, 'ancestor': B.rsplit('/', 2)[0], 'root': '/', 'path-arg': '/outside', 'rel-path-arg': B}[scope]
         if h == 'parent-removed' and scope in ('dir',):
             cwd = '/'            # the directory no longer exists; restore from / instead
-        argv = ['trash-restore', '--sort', c['sort']] + tdopt + ([E] if scope == 'path-arg' else [])
+        relarg = ['--', n] if n.startswith('-') else [n]
+        argv = ['trash-restore', '--sort', c['sort']] + tdopt + ([E] if scope == 'path-arg' else (relarg if scope == 'rel-path-arg' else []))
         r1 = sb.run(argv, cwd=cwd, stdin='\n')       # listing only (empty reply restores nothing)
         listing = scen.parse_restore_listing(r1.out)
         want = [i for (i, d, p) in listing if p == E and d == T_US.replace('T', ' ')]
